@@ -116,6 +116,17 @@ def translate():
     mct = mc.read_text().replace(" ", "")
     need(mct.count("self.inv_covs=self.mode_stats.inv_covariances") == 1 and mct.count("self.chol_covs=self.mode_stats.chol_covariances") == 2,
          fn, "kernels read the mode statistics' inverse and Cholesky factor", "mcmc.py")
+    # boundary options: the tpCN runner drops them (every coordinate bounded, out-of-cube proposals rejected); RWM keeps them
+    tin = get_function(mc, "TPCNRunner.__init__")
+    tst = [_ns(x) for x in strip_doc(tin.body)]
+    need(tst and tst[0] == "super().__init__(*args,**kwargs)", tin, "runner initialisation", "mcmc.py:TPCNRunner.__init__")
+    tpcn_bounded = "self.periodic=None" in tst and "self.reflective=None" in tst
+    need(tpcn_bounded or ("self.periodic=None" not in tst and "self.reflective=None" not in tst), tin,
+         "tpCN drops only one of the two boundary options", "mcmc.py:TPCNRunner.__init__")
+    rin = get_function(mc, "RWMRunner.__init__")
+    rwm_keeps = all("periodic" not in x and "reflective" not in x for x in [_ns(x) for x in strip_doc(rin.body)])
+    bin_ = _ns(get_function(mc, "BaseMCMCRunner.__init__"))
+    need("self.periodic=periodic" in bin_ and "self.reflective=reflective" in bin_, rin, "base runner stores the boundary options", "mcmc.py")
     text = f"""(* GENERATED from /repo/tempest/mcmc.py (TPCNRunner, RWMRunner, BaseMCMCRunner.run) by tools/props/c03.py *)
 From Coq Require Import Reals.
 Local Open Scope R_scope.
@@ -133,6 +144,8 @@ Definition accept_mask_is_uniform_strictly_below_alpha : bool := true.
 Definition alpha_is_min_one_exp_nan_to_zero : bool := true.
 Definition out_of_cube_proposals_are_rejected : bool := {str(bool(cube_rule_rejects)).lower()}.
 Definition inverse_and_cholesky_are_of_the_mode_scale_matrix : bool := true.
+Definition tpcn_rejects_on_every_coordinate : bool := {str(bool(tpcn_bounded and cube_rule_rejects)).lower()}.
+Definition rwm_wraps_and_folds_designated_coordinates : bool := {str(bool(rwm_keeps)).lower()}.
 """
     write_if_changed(COQ / "Gen" / "Kernel.v", text)
 
@@ -358,6 +371,25 @@ def stationarity(run, tier):
     z = z_of(u1[:, 0], m_half, sd_half)
     if abs(z) > 6:
         run.fail("reflective-target-not-invariant", f"rwm with a reflective coordinate: mean z={z:.1f}", kernel="rwm", seed=303)
+    # (c') tpCN with a periodic / a reflective coordinate and mode statistics NOT symmetric about the boundary
+    for mean, cov in (([0.5], [[0.09]]), ([0.05], [[0.02]])):
+        t = dict(periodic_t, mean=mean, cov=cov)
+        u0, u1 = ensemble("tpcn", t, n_walk, 212, periodic=np.array([0]), n_steps=8)
+        run.case(key=("stationarity-periodic", "tpcn", mean[0]), nontrivial=True)
+        zc = z_of(np.cos(2 * np.pi * u1[:, 0]), m1, math.sqrt(var_c))
+        zs = z_of(np.sin(2 * np.pi * u1[:, 0]), 0.0, math.sqrt(0.5 * (1 - special.iv(2, kappa) / special.iv(0, kappa))))
+        run.extra[f"tpcn_periodic_z_mean{mean[0]}"] = [round(zc, 2), round(zs, 2)]
+        if abs(zc) > 6 or abs(zs) > 6:
+            run.fail("periodic-target-not-invariant", f"tpcn with a periodic coordinate (mode mean {mean[0]}): after 8 steps on exact von Mises "
+                     f"draws, mean cos z={zc:.1f}, mean sin z={zs:.1f}", kernel="tpcn", n_walkers=n_walk, seed=212, mode_mean=mean, mode_cov=cov)
+    t = dict(half, mean=[0.12], cov=[[0.008]])
+    u0, u1 = ensemble("tpcn", t, n_walk, 313, reflective=np.array([0]), n_steps=8)
+    run.case(key=("stationarity-reflective", "tpcn"), nontrivial=True)
+    z = z_of(u1[:, 0], m_half, sd_half)
+    run.extra["tpcn_reflective_z"] = round(z, 2)
+    if abs(z) > 6:
+        run.fail("reflective-target-not-invariant", f"tpcn with a reflective coordinate (mode mean 0.12): mean z={z:.1f}", kernel="tpcn",
+                 n_walkers=n_walk, seed=313)
     # (d) HARD boundary: the same half-Gaussian with no boundary option (out-of-cube proposals must be rejected, not redrawn)
     for kind in ("rwm", "tpcn"):
         u0, u1 = ensemble(kind, half, n_walk, 404, n_steps=8)
